@@ -122,6 +122,14 @@ CHECKS = {
              '{{delete: False}}); !call results / !bind partials must equal what the rule + native call give, errors must be EvalError with the native cause.',
         note='Gap indices on keyword-only parameters, same-name strings and call<->bind changes are outside the statement and not generated.',
         design='4/C13'),
+    'C18': dict(
+        technique='property-based round-trip and substitution testing (Hypothesis): parse -> dump -> parse of generated full-vocabulary documents, text fixpoint, per-node user metadata, substitution in generated merge contexts, evaluation',
+        text='Documents over the full tag vocabulary (flags and metadata on every node kind incl. null, awkward strings, multi-line code, all '
+             'dynamic and structural kinds) are parsed, dumped and re-parsed: the second dump must equal the first, user metadata must be equal '
+             'at every path, the original and the re-parsed document must give the same merged tree (or the same failure) between 0-2 random '
+             'tagged stages before and after, and evaluate to the same value.',
+        note='Node kinds may legitimately change (an f-string node is dumped as the equivalent eval node); compared are behaviour and metadata.',
+        design='4/C18'),
     'C19': dict(
         technique='property-based round-trip and substitution testing (Hypothesis): deepcopy / pickle copies of generated parsed and merged trees compared node by node, substituted in merges, evaluated, and mutated',
         text='(A) parsed documents over the full tag vocabulary, (B) trees merged from 1-3 documents: copies by deepcopy and by pickle must have '
